@@ -32,7 +32,7 @@ def step (_ : Unit) (line : String) : Unit × String :=
       let ctf : CheckTxFeees := ⟨parseList exempt, mb⟩
       let r := FxVerif.Gen.C20.checkTxFee ctf true (mode == "c") (parseList msgs) g
         (fs.map fun p => ⟨p.1, p.2⟩) (ps.map fun p => ⟨p.1, p.2⟩)
-      ((), match r with | .admit => "admit" | .refuse => "refuse" | .panic => "panic" | .notFeeTx => "notfeetx")
+      ((), match r with | .accept => "admit" | .refuse => "refuse" | .panic => "panic" | .notFeeTx => "notfeetx")
     | _, _, _, _ => ((), "bad-op")
   | ["target", h] =>
     match unhexStr h with
